@@ -366,7 +366,32 @@ func execute(sc scenario, plan cancelPlan) (o *outcome) {
 			o.Deadlock = fmt.Sprint(x)
 		}
 	}()
+	// Real sync.Pools are emptied before every bubble: anything pooled that
+	// belongs to a bubble (a channel, a timer) is fatal to touch from the next.
+	eng.FreshPools()
 	synctest.Test(T, func(t *testing.T) {
+		if pre := prelude; pre != nil {
+			// An earlier Dial of the same process, in the same bubble.
+			dialOnce(pre.sc, pre.plan, &outcome{CtxEndedAt: -1})
+		}
+		dialOnce(sc, plan, o)
+	})
+	return o
+}
+
+// preludeSpec is an earlier Dial the process made before the one under
+// observation (set per run by C20, nil for most runs).
+type preludeSpec struct {
+	sc   scenario
+	plan cancelPlan
+}
+
+var prelude *preludeSpec
+
+// dialOnce is one Dial with its peer, its context and its cancel plan; it
+// leaves nothing behind in the bubble.
+func dialOnce(sc scenario, plan cancelPlan, o *outcome) {
+	{
 		start := time.Now()
 		var sim *Conn
 		base := context.Background()
@@ -572,8 +597,7 @@ func execute(sc scenario, plan cancelPlan) (o *outcome) {
 			// Let nothing of ours keep the bubble alive.
 			sim.Close()
 		}
-	})
-	return o
+	}
 }
 
 // ---------------------------------------------------------------------------
@@ -632,6 +656,20 @@ func C20(r *eng.Run) {
 	sc := drawScenario(r)
 	r.Note("C20 scenario: %s", sc)
 	r.Res.Nontrivial = true
+	prelude = nil
+	defer func() { prelude = nil }()
+	if r.T.Chance(sim.LHist, 1, 4) {
+		// The process has dialed before: a cancel-only context ended at some
+		// instant of an unrelated handshake (answered, rejected or silent).
+		pre := drawScenario(r)
+		pre.CtxKind, pre.Cause, pre.Timeout, pre.RealTLS, pre.Debug = 1, false, 0, false, 0
+		pre.Peer = []int{0, 1, 1, 2}[r.T.Int(sim.LCfg, 4)]
+		ms := time.Millisecond
+		at := []time.Duration{13 * ms, 77 * ms, 173 * ms, 327 * ms, 423 * ms}[r.T.Int(sim.LDelay, 5)]
+		prelude = &preludeSpec{sc: pre, plan: cancelPlan{Kind: "time", At: at}}
+		r.Note("C20 earlier dial of the process: %s, cancel at %v", pre, at)
+		r.Probe("dial_after_an_earlier_dial_of_the_process")
+	}
 	canCancel := sc.CtxKind != 0
 	// A cancel-only context facing a peer that never lets the handshake end
 	// needs the harness to cancel eventually, otherwise blocking forever is
